@@ -508,12 +508,18 @@ func genPlayerListSkeleton(repo string, out *bytes.Buffer) error {
 
 func genQueue(repo string) (string, error) {
 	var out bytes.Buffer
-	out.WriteString("(* GENERATED by tools/gotrans from net/queue/queue.go and server/playerlist.go - do not edit *)\n")
+	out.WriteString("(* GENERATED by tools/gotrans from net/queue/queue.go, server/playerlist.go and net/packet/*.go - do not edit *)\n")
 	out.WriteString("From Coq Require Import List.\nFrom GoMC Require Import Model.C20_syntax.\nImport ListNotations.\n\n")
 	if err := genQueueSkeleton(repo, &out); err != nil {
 		return "", err
 	}
 	if err := genPlayerListSkeleton(repo, &out); err != nil {
+		return "", err
+	}
+	if err := genPoolSkeleton(repo, &out); err != nil {
+		return "", err
+	}
+	if err := genCacheSkeleton(repo, &out); err != nil {
 		return "", err
 	}
 	return out.String(), nil
